@@ -38,6 +38,10 @@ def handleL1 (j : Json) : Except String Json := do
       pure ((← getNat sj "k"), (← parseObs (← sj.getObjVal? "obs")))
     pure (Json.mkObj (base ++
       [("agree", Json.bool (agreesWithModel E obs)),
+       ("affects", Json.arr (match parse E, obs with
+          | .ok _, .ok _ => #[Json.str "C01", Json.str "C02"]
+          | .error _, .err .. => #[Json.str "C19"]
+          | _, _ => #[Json.str "C01", Json.str "C02", Json.str "C19"])),
        ("c01", Json.bool (holdsC01 q obs)), ("c02", Json.bool (holdsC02 E obs)),
        ("c19", Json.bool (holdsC19 q obs shifts))]))
 
